@@ -1,32 +1,16 @@
 package main
 
 import (
-	"bytes"
 	"fmt"
-	"os"
 
-	"github.com/google/pprof/internal/zzverif/vlib"
+	"github.com/google/pprof/internal/symbolizer"
 	"github.com/google/pprof/profile"
 )
 
 func main() {
-	b, _ := os.ReadFile(os.Args[1])
-	p, err := profile.ParseData(b)
-	fmt.Println("err:", err)
-	if err != nil {
-		return
-	}
-	var w bytes.Buffer
-	p.WriteUncompressed(&w)
-	q, err := profile.ParseUncompressed(w.Bytes())
-	fmt.Println("reparse err:", err)
-	a, c := vlib.ProjectFull(p), vlib.ProjectFull(q)
-	if !a.Equal(c) {
-		for i := range a.Samples {
-			if fmt.Sprint(a.Samples[i]) != fmt.Sprint(c.Samples[i]) {
-				fmt.Println("sample", i, a.Samples[i], "=>", c.Samples[i])
-			}
-		}
-		fmt.Println(a.Period, c.Period, a.ST, c.ST, a.PT, c.PT)
-	}
+	p := &profile.Profile{Function: []*profile.Function{{ID: 3, Name: "(a::b)", SystemName: "(a::b)"}, {ID: 1, Name: "named", SystemName: ""}}}
+	symbolizer.Demangle(p, false, "")
+	fmt.Printf("%q %q\n", p.Function[0].Name, p.Function[1].Name)
+	symbolizer.Demangle(p, true, "full")
+	fmt.Printf("%q %q\n", p.Function[0].Name, p.Function[1].Name)
 }
